@@ -111,34 +111,37 @@ def declOk (w : WantDecl) (g : DeclS) : List String :=
 def baseName (target : String) (u : UInfo) : String :=
   if u.prim == .record && u.targets.contains target then u.name ++ "_base" else u.name
 
+def cppWantField (c : CppCfg) (f : FieldD) : Want := { ty := refCpp c f.ty .field, name := convert c.fieldStyle f.name }
+def cppWantParam (c : CppCfg) (f : FieldD) : Want := { ty := refCpp c f.ty .param, name := convert c.fieldStyle f.name }
+
+/-- the modifier table of a C++ method: static ↔ `static`; instance ↔ `virtual … = 0`; const ↔ `const`;
+    no `throws` ↔ `noexcept`; `[[nodiscard]]` iff const and returning; async ↔ `task<…>` -/
+def cppWantMethod (c : CppCfg) (m : MethodD) : WantMethod :=
+  { pre := (if m.ret.isSome && m.isConst then ["[[nodiscard]]"] else []) ++ [if m.isStatic then "static" else "virtual"],
+    ret := (match m.ret, m.isAsync with
+      | some r, false => refCpp c r .result
+      | none, false => .atom "void"
+      | some r, true => wrap1 "pydjinni::coroutine::task" (refCppCore c r)
+      | none, true => wrap1 "pydjinni::coroutine::task" (.atom "void")),
+    name := convert c.methodStyle m.name, params := m.params.map (cppWantParam c),
+    post := (if m.isConst then ["const"] else []) ++ (if m.throwing.isNone then ["noexcept"] else []) ++ (if m.isStatic then [] else ["=", "0"]) }
+
+def cppWantCode (c : CppCfg) (k : CodeD) : WantCode :=
+  { name := convert c.tyStyle k.name, fields := k.params.map (cppWantParam c), ctor := k.params.map (cppWantParam c) }
+
 def wantCpp (c : CppCfg) (d : Decl) : WantDecl :=
   let u := d.info
-  let field (f : FieldD) : Want := { ty := refCpp c f.ty .field, name := convert c.fieldStyle f.name }
-  let param (f : FieldD) : Want := { ty := refCpp c f.ty .param, name := convert c.fieldStyle f.name }
   let common : WantDecl := { kind := "none", name := convert c.tyStyle (baseName "cpp" u), scope := cppNamespace c u.ns, mods := [], constFields := true }
   match d with
-  | .enum _ items => { common with
-      kind := "enum", items := items.map (convert c.enumStyle) }
-  | .flags _ items => { common with
-      kind := "flags", items := items.map (fun f => convert c.enumStyle f.name) }
+  | .enum _ items => { common with kind := "enum", items := items.map (convert c.enumStyle) }
+  | .flags _ items => { common with kind := "flags", items := items.map (fun f => convert c.enumStyle f.name) }
   | .record _ fields _ _ =>
     { common with
-      kind := "struct", mods := if u.targets.contains "cpp" then [] else ["final"], fields := fields.map field, ctor := fields.map field }
-  | .interface _ methods =>
-    { common with
-      kind := "class", methods := methods.map (fun m =>
-        { pre := (if m.ret.isSome && m.isConst then ["[[nodiscard]]"] else []) ++ [if m.isStatic then "static" else "virtual"],
-          ret := (match m.ret, m.isAsync with
-            | some r, false => refCpp c r .result
-            | none, false => .atom "void"
-            | some r, true => wrap1 "pydjinni::coroutine::task" (refCppCore c r)
-            | none, true => wrap1 "pydjinni::coroutine::task" (.atom "void")),
-          name := convert c.methodStyle m.name, params := m.params.map param,
-          post := (if m.isConst then ["const"] else []) ++ (if m.throwing.isNone then ["noexcept"] else []) ++ (if m.isStatic then [] else ["=", "0"]) }) }
+      kind := "struct", mods := if u.targets.contains "cpp" then [] else ["final"],
+      fields := fields.map (cppWantField c), ctor := fields.map (cppWantField c) }
+  | .interface _ methods => { common with kind := "class", methods := methods.map (cppWantMethod c) }
   | .function _ _ _ _ _ => { common with name := "" }
-  | .error _ codes =>
-    { common with
-      kind := "error", codes := codes.map (fun k => { name := convert c.tyStyle k.name, fields := k.params.map param, ctor := k.params.map param }) }
+  | .error _ codes => { common with kind := "error", codes := codes.map (cppWantCode c) }
 
 def wantJava (c : JavaCfg) (d : Decl) : WantDecl :=
   let u := d.info
